@@ -187,3 +187,31 @@ def regress():
 
 if __name__ == "__main__" and sys.argv[1] == "regress":
     regress()
+
+
+def remeta():
+    """re-run the checks on every stored seed and refresh the 'caught' fields of its meta.json"""
+    import glob
+    from concurrent.futures import ThreadPoolExecutor
+    pids = ["C%02d" % i for i in range(1, 21)]
+
+    def one(d):
+        mp = os.path.join(d, "meta.json")
+        meta = json.load(open(mp))
+        pid = meta["breaks_property"]
+        res = check(os.path.join(d, "patch.diff"), pids)
+        own = res.get(pid, {})
+        meta["caught_by_own_property_check"] = own.get("rc") == 1
+        meta["rules_fired_own_property"] = own.get("fired", [])
+        meta["other_properties_that_fire"] = {k: r["fired"] for k, r in res.items() if k != pid and r.get("rc") == 1}
+        meta["analysis_errors"] = {k: r["err"] for k, r in res.items() if r.get("rc") == 2}
+        json.dump(meta, open(mp, "w"), indent=1)
+        return meta["id"], meta["caught_by_own_property_check"], meta["rules_fired_own_property"], \
+            meta["other_properties_that_fire"], meta["analysis_errors"]
+    with ThreadPoolExecutor(3) as ex:
+        for r in ex.map(one, sorted(d for d in glob.glob(os.path.join(VERIF, "seeded", "C*")) if os.path.isdir(d))):
+            print(r)
+
+
+if __name__ == "__main__" and sys.argv[1] == "remeta":
+    remeta()
